@@ -79,7 +79,15 @@ def _debug_all(fn, name):
 
 def run_sum(variant, nrows):
     def run(mf, tier):
-        fn = mf.find(r"^fn projection_sort::execute_aggregate::\{closure#1\}\(")
+        # the per-group closure is the one that matches on the aggregate function (closure numbering shifts when code is added)
+        fn = None
+        for h in sorted(h for h in mf.index if re.match(r"^fn projection_sort::execute_aggregate::\{closure#\d+\}\(", h)):
+            cand = mf.find("^" + re.escape(h))
+            if any(re.search(r"\(\(\*_\d+\) as %s\)\.0" % variant, l) for l in cand.lines):
+                fn = cand
+                break
+        if fn is None:
+            raise Unsupported("cannot find the per-group closure of execute_aggregate")
         entry, value_local, stops = locate_arm(fn, variant)
         vi = variant_index("nervusdb-query/src/executor/core_types.rs", "Value")
         seen_vals = []
